@@ -319,7 +319,8 @@ class SourceHandler:
         --------
 
         ValueError
-            Invalid transmission mode detected.
+            Invalid transmission mode detected, or only one of the source and destination file
+            was specified.
         NoRemoteEntityCfgFound
             No remote configuration found for destination ID specified in the Put Request.
         SourceFileDoesNotExist
@@ -333,6 +334,11 @@ class SourceHandler:
         if self.states.state != CfdpState.IDLE:
             _LOGGER.debug("CFDP source handler is busy, can't process put request")
             return False
+        if (request.source_file is None) != (request.dest_file is None):
+            raise ValueError(
+                "put request must specify both the source and the destination file, or none of "
+                "them for a metadata only request"
+            )
         self._put_req = request
         if self._put_req.source_file is not None:
             assert isinstance(self._put_req.source_file, Path)
